@@ -157,7 +157,8 @@ func uncompressIndices(indices interface{}) ([]int, error) {
 				return nil, fmt.Errorf("uncompressIndices: index array[1] is not a number: %v", index[1])
 			}
 
-			for i := start; i <= end; i++ {
+			// The second element is the length of the run (see package diff), not its last index.
+			for i := start; i < start+end; i++ {
 				uncompressedIndices = append(uncompressedIndices, int(i))
 			}
 		case float64:
